@@ -6,6 +6,7 @@ import (
 	"net/url"
 	"os"
 	"path/filepath"
+	"sync"
 )
 
 // settings holds pprof settings.
@@ -126,8 +127,14 @@ func configMenu(fname string, u url.URL) []configMenuEntry {
 	return result
 }
 
+// settingsMu guards the settings file against concurrent edits.
+var settingsMu sync.Mutex
+
 // editSettings edits settings by applying fn to them.
 func editSettings(fname string, fn func(s *settings) error) error {
+	// Serialize read-modify-write cycles of concurrent requests.
+	settingsMu.Lock()
+	defer settingsMu.Unlock()
 	settings, err := readSettings(fname)
 	if err != nil {
 		return err
